@@ -23,8 +23,7 @@
 (* Properties: every name written once; the written entries are exactly the  *)
 (* catalogue's BaseEntries (plus the two directories) - this ties the        *)
 (* catalogue used by the importer model to the export walk; the archive in   *)
-(* export order is imported in ONE pass; the property (P) holds at the end   *)
-(* (known classes excepted).                                                 *)
+(* export order is imported in ONE pass; the property (P) holds at the end.  *)
 (* Deviation: one exported root per behaviour (a multi image source is       *)
 (* exported once per tag by the driver and merged outside regclient).        *)
 (***************************************************************************)
@@ -86,7 +85,7 @@ XOnce == \A i, j \in 1..Len(arch) : i # j => arch[i].name # arch[j].name
 XComplete == phase # "export" =>
                {e \in Written : e.kind = "file"} = sc.entries
 \* parents are written before their children, so the importer needs a single pass over its own export
-XSinglePass == Terminal /\ sc.bad = "" => pass = 1
+XSinglePass == Terminal /\ ~ExpectedBad => pass = 1
 \* and the round trip satisfies the property
-XRoundTrip == PropHoldsButKnown /\ KnownReproduced
+XRoundTrip == PropExact
 =============================================================================
